@@ -242,6 +242,10 @@ func (e *Engine) Commit(txn *Transaction) error {
 		return nil
 	}
 
+	// remember the catalog before the cleanup, it also holds the events of
+	// this transaction that the cleanup may discard before they are published
+	uncleaned := txn.Catalog()
+
 	// clean oplog
 	txn.Clean(e.opts.MinOplogSize, e.opts.MaxOplogSize, e.opts.MinOplogAge, e.opts.MaxOplogAge)
 
@@ -253,8 +257,10 @@ func (e *Engine) Commit(txn *Transaction) error {
 	}
 
 	// remember the newest oplog event the cleanup discarded so that streams
-	// without a position in the oplog can detect that they lost events
-	e.discarded = newestDiscarded(e.catalog, txn.Catalog(), e.discarded)
+	// can detect that they lost events: streams without a position in the
+	// oplog, and streams that are behind events of this transaction that
+	// have been discarded without ever being published
+	e.discarded = newestDiscarded(uncleaned, txn.Catalog(), e.discarded)
 
 	// set new catalog
 	verifPoint("commit.before_publish", e)
